@@ -8,7 +8,7 @@ import ast
 
 from ..core import AnchorError, call_name, decorators, norm, short, own_nodes, kwarg, FUNC_TYPES
 from ..cfg import cfg_of
-from ..lib import calls_in, stmts_in, gate, must_pass, node_has, params, paired_correlated, none_accept
+from ..lib import calls_in, stmts_in, gate, must_pass, node_has, params, paired_correlated, none_accept, if_test_texts
 
 IMP = 'jedi.inference.imports'
 FUNCS = 'jedi.inference.compiled.subprocess.functions'
@@ -103,8 +103,8 @@ def rule_b(repo, chk):
         ok = len(ns) == 1 and norm(ns[0].args[1]) == 'spec.submodule_search_locations._path'
         chk.ob('C10.b', ok, lp, 'a namespace package is reported with the plain list of its portions (not importlib\'s live, self-recomputing _NamespacePath)',
                norm(ns[0].args[1]) if ns else '')
-        ptest = [s for s in ast.walk(lp) if isinstance(s, ast.If) and 'is_global_search' in norm(s.test)]
-        ok = len(ptest) == 1 and norm(ptest[0].test) == 'is_global_search and finder != importlib.machinery.PathFinder'
+        ptest = [t for t in if_test_texts(lp, nested=True) if 'is_global_search' in t]
+        ok = ptest == ['is_global_search and finder != importlib.machinery.PathFinder']
         chk.ob('C10.b', ok, lp, 'non-PathFinder finders are asked without a path on a global search')
     rets = [r for r in stmts_in(f, ast.Return) if call_name(r.value) == '_find_module_py33']
     chk.ob('C10.b', len(rets) == 1 and [norm(a) for a in rets[0].value.args] == ['string', 'path', 'loader'], f, 'the loader found is handed on')
